@@ -65,10 +65,12 @@ typedef struct {
 	size_t in_len;
 } c04_op;
 
-// c04_stream.c
-bool c04_run_stream_ep(const c04_op *op, c04_res *r);
-// c04_parse.c
-bool c04_run_parse_ep(const c04_op *op, c04_res *r);
+// c04_stream.c: `reuse` != NULL = initialise the coder on that (already used, never ended) handle and do not call
+// lzma_end; `abandon_after` != 0 = stop after that many lzma_code calls
+bool c04_is_stream_ep(const char *ep);
+bool c04_run_stream_ep(const c04_op *op, c04_res *r, lzma_stream *reuse, unsigned abandon_after);
+// c04_parse.c: `reuse` = long-lived helper objects (lzma_index_hash) are re-initialised from a used one
+bool c04_run_parse_ep(const c04_op *op, c04_res *r, bool reuse);
 // c04_gen.c: "gen <format> <variant> <hex>" -> prints hex of a valid file
 bool c04_gen(int ntok, char **tok);
 // c04_idx.c: "idx ..." grid of the real index macros
